@@ -98,6 +98,11 @@ pub fn repo_root() -> PathBuf {
     PathBuf::from(std::env::var("VERIF_REPO").unwrap_or_else(|_| "/repo".to_string()))
 }
 
+/// The real `isograph_cli` built from the working tree by the dispatcher (`pre=["cli"]`).
+pub fn cli_path() -> PathBuf {
+    repo_root().join("target/debug/isograph_cli")
+}
+
 /// Scratch space (tmpfs when there is one); never under /tmp.
 pub fn scratch_base() -> PathBuf {
     let base = if Path::new("/dev/shm").is_dir() {
